@@ -416,3 +416,23 @@ for _k, _v in _EXTRA.items():
     if _v:
         PROPS[_k]["rule"] = "".join(PROPS[_k]["rule"]) if isinstance(PROPS[_k]["rule"], tuple) else PROPS[_k]["rule"]
         PROPS[_k]["rule"] += _v
+
+_EXTRA2 = {
+    "C01": " Round 6: randomness faults are ordinary ops of the attack scripts; the attacker's own exchanges against a v3 victim that knows its peer instance carry that instance's tag (otherwise they are ignored unseen); at the end the attacker tries to read one text of each side with the keys of its own exchanges: a side that reports an honest peer must not be readable for the attacker, a side that reports the attacker's key and session must be.",
+    "C02": " Round 6: C02resent - for every text length 12..911 (thorough ..4211), both versions: the text is sent, the peer's client reports it unreadable, the parties re-key, and what comes back marked '[resent] ' must be exactly the text passed to Send.",
+    "C03": " Round 6: the peer's disconnect record may carry a value of 1-3 bytes, be preceded by a padding record and travel together with last words.",
+    "C04": " Round 6: C04long - texts of 33-100 KB in both directions, whole and in pieces of 150..65535 bytes.",
+    "C05": " Round 6: C05refreplay - data messages built by the reference in forms otr3's own Send never produces (text flagged ignore-unreadable, text plus extra-key record, flagged text plus padding, records only), accepted once and delivered again after 0, 1, 2 and 4 rounds of traffic: no text, no record acted on again.",
+    "C06": " Round 6: C06fresh - two conversations that have never talked: at every point of their first exchange either side receives a refused or ignored key-exchange message (wrong or foreign instance tags, from another instance to another instance of ours, cut short, damaged, other version, retyped, length prefix altered), compared with the twin world byte for byte.",
+    "C07": " Round 6: the other side starts too, at any later point of the schedule (its own trigger once, all four triggers); trigger 5: a tagged text written by another implementation (8 forms: version-1 and later-version groups before, between or after the known ones) reaches a party that starts on tags - it must send a D-H Commit and the exchange must complete in every schedule.",
+    "C08": " Round 6: C08peerend - otr3 against the reference, which ends the session in 128 ways (disconnect record with a 0-3 byte value, padding record first, last words in the same message, six kinds of trailing bytes, both versions): afterwards no D-H exponent otr3 drew is reachable from the conversation or left unzeroed.",
+    "C10": " Round 6: the reference may number its first D-H key 2, 3, 100 or 70000 (any number > 0 is legal), may start every record block with a padding record, and may end the session with last words in the same message, a disconnect record carrying a value, padding first - with otr3's heartbeat due or not.",
+    "C11": " Round 6: the secret buffers handed to StartAuthenticate / ProvideAuthenticationSecret are the caller's again when the call returns: the harness overwrites them immediately.",
+    "C13": " Round 6: C13truncations - every message of a real session (both versions, whole and in pieces) cut after each of its first 40 / last 8 decoded bytes and first 24 / last 6 characters, given to ExtractInstanceTags, and the decoded-body cuts to Receive in a fresh and in an encrypted conversation.",
+    "C14": " Round 6: the message in pieces may be an '?OTR Error' message: it is reported to the application exactly once, on completion, and never again whatever arrives later (counted over all arrivals of the case).",
+    "C17": " Round 6: SMP questions are arbitrary non-NUL bytes (any encoding or none).",
+    "C18": " Round 6: C18peerend - the 128 peer-end forms of C08peerend: exactly one GoneInsecure, last words delivered without error, Send refused until End(), plaintext afterwards, End() raises nothing more.",
+    "C19": " Round 6: something happens once before the cycles - an '?OTR Error' request, or a query whose D-H Commit answer is lost so that a key exchange stays pending - and then one kind of traffic goes on (sends, ping-pong, crossing messages, garbage, forgeries, replays).",
+}
+for _k, _v in _EXTRA2.items():
+    PROPS[_k]["rule"] += _v
